@@ -70,7 +70,8 @@ class C08(object):
                    'wiring calls (AddSupplier, SetExogenous, RegisterCashFlow, portfolio rules) follow the declarations']
     required_counters = ('builds.compared', 'builds.compared_exactly', 'orders.distinct',
                          'zone_queried_during_construction.cases', 'parameter_chain_across_sectors.cases', 'two_markets_household_buyer_nondefault_codes.cases',
-                         'profitable_firm_sharing_its_market_with_an_importer.cases')
+                         'profitable_firm_sharing_its_market_with_an_importer.cases',
+                         'households_sharing_one_portfolio_rule_object.cases')
 
     def n_cases(self, tier):
         return 12 if tier == 'quick' else 30 + 270
@@ -97,6 +98,11 @@ class C08(object):
             sp2 = M.gen_spec(rng, n_zones=2, ext=True, allow_fed=False, maxtime=rng.randint(3, 4))
             if M.force_import_into_market_of_profitable_firm(rng, sp2):
                 spec = sp2
+        if idx % 6 == 2:
+            # household and capitalists of one country hand the SAME portfolio rule object to the library when they are declared
+            sp3 = M.gen_spec(rng, n_zones=1, allow_fed=False, maxtime=rng.randint(3, 4))
+            if M.force_household_and_capitalists_sharing_a_portfolio_rule(rng, sp3):
+                spec = sp3
         codes = None
         if idx % 3 == 0:
             # two markets with prefix-related codes in which government AND household buy, a non-default labour code
@@ -123,6 +129,8 @@ class C08(object):
                for z in spec['zones'] for c in z['countries'] if c['role'] != 'central'):
             rec.count('profitable_firm_sharing_its_market_with_an_importer.cases')
         base = M.build(spec, query_zone=qz, codes=codes)
+        if getattr(base, 'weightings_reused', 0):
+            rec.count('households_sharing_one_portfolio_rule_object.cases')
         if base.error is not None:
             return {'verdict': 'notjudged', 'shape': shape + '|base:' + type(base.error).__name__}
         try:
